@@ -14,7 +14,8 @@
     (b) locations are never read: parser and interpreter only copy them, so (a) gives the same
         pcap bytes, the same number of warnings, the same error kind, the same packets before it;
     (c) the CLI loop over several inputs threads nothing from one input to the next except the exit
-        status: reports, outputs and status for an input are those of compiling it alone.
+        status: reports, outputs and status for an input are those of compiling it alone;
+    (d) a `let` of a literal to a name nobody mentions is invisible (pinned from the C14 development).
 
     Where blank space IS significant the hypotheses say so: [lexeme_boundary a b] (the insertion point
     is where the lexer, scanning the line from its start, ends one lexeme and starts the next: not
@@ -148,6 +149,28 @@ Theorem C13_batch_outputs : forall keep files f inputs x,
   fs_lookup (in_out x) (b_fs (run_batch keep files f inputs)) = leaves keep files x
   /\ fs_lookup (in_out x) (b_fs (run_batch keep files f [x])) = leaves keep files x.
 Proof. exact batch_outputs. Qed.
+
+(* ---------------------------------------------------------------- (d) unused bindings of plain values *)
+From RS.Proofs.C14 Require Import Sim Unused RunLevel.
+
+(** (proved for C14, Proofs/C14/Unused.v) inserting `let y = <literal>` anywhere in a program, y not
+    bound before and not mentioned after, changes neither the outcome (success, which error, which
+    panic) nor the records written, the clock, the heap, the imports, the warnings or the library calls;
+    for any library *)
+Theorem C13_unused_binding : forall functions classes modules exec pre post l y l' v p,
+  assoc y (p_regs p) = None -> (forall l0 rv, ~ In (SAssign l0 y rv) pre) ->
+  not_mentioned y post = true ->
+  rsim same_but_regs_loc
+    (add_stmts functions classes modules exec p (pre ++ SAssign l y (ELit l' v) :: post))
+    (add_stmts functions classes modules exec p (pre ++ post)).
+Proof. exact unused_plain_let_irrelevant. Qed.
+
+(** ... and so the whole run with the real library gives the same pcap bytes, warnings and library
+    calls, or the same error and the same packets before it *)
+Theorem C13_unused_binding_run : forall files pre post l y l' v,
+  (forall l0 rv, ~ In (SAssign l0 y rv) pre) -> not_mentioned y post = true ->
+  same_run (run files (pre ++ SAssign l y (ELit l' v) :: post)) (run files (pre ++ post)).
+Proof. exact run_unused_let. Qed.
 
 (* ---------------------------------------------------------------- non-vacuity *)
 From RS.Proofs.C13 Require Import Witness.
